@@ -38,9 +38,8 @@ UTF-8) and `std::env::var` on it are modelled by `unicodeView`: a variable whose
 not valid Unicode is invisible to `std::env::var(name)` (`Err(NotUnicode)` / never asked for), so
 the code treats a reference to it as a reference to an unset variable.
 
-The call sites (builders, configuration deserializers, `rotate()`, and the rolling appender over
-its whole life) are modelled at the end: which text each of them hands to `expand_env_vars`, how
-often, and which stored location every later open / roll / reopen uses.
+The call sites (builders, configuration deserializers, `rotate()`, and the appenders over their
+whole life, on a file system with directories) are modelled in EnvExpand/CallSites.lean.
 -/
 namespace Log4rs.EnvExpand
 open Log4rs Log4rs.Str
@@ -152,7 +151,9 @@ def lookup (env : Env) (name : Text) : Option Text :=
 
 /-! ### The operating system's environment -/
 
-/-- the environment block of the process: names and values are byte strings (names unique) -/
+/-- the environment block of the process: names and values are byte strings. `setenv` keeps names
+unique; a block handed to `execve` need not be — `osVar` is first-match as `getenv` is, and the
+theorems that go through `unicodeView` carry the `Nodup` hypothesis explicitly. -/
 abbrev OsEnv := List (Bytes × Bytes)
 
 /-- what `std::env::var` can see: `var(name)` returns `Ok(value)` iff a variable with the bytes of
@@ -163,6 +164,22 @@ def unicodeView (os : OsEnv) : Env :=
     match decodeUtf8 e.1, decodeUtf8 e.2 with
     | some n, some v => some (n, v)
     | _, _ => none)
+
+/-- `std::env::VarError` -/
+inductive VarError where
+  | notPresent | notUnicode
+  deriving Repr, DecidableEq
+
+/-- `std::env::var(name)` as libc answers it: `getenv` returns the FIRST entry of the block whose
+name is `name`; its value must then be valid Unicode. (A name that is empty or contains `=` or NUL
+is never found: `Err(NotPresent)`; `std::env::var` has no panicking path.) -/
+def osVar (os : OsEnv) (name : Text) : Except VarError Text :=
+  match os.find? (fun e => e.1 == utf8 name) with
+  | some e =>
+    match decodeUtf8 e.2 with
+    | some v => .ok v
+    | none => .error .notUnicode
+  | none => .error .notPresent
 
 /-- body of the `for` loop for one match, historical code (before the F7 fix) -/
 def stepUnfixed (alnum : Char → Bool) (env : Env) (path out : Text) (matchStart : Nat) : Outcome Unit Text :=
@@ -235,113 +252,14 @@ def expand (alnum : Char → Bool) (env : Env) (path : Text) : Outcome Unit Text
   | .err e => .err e
   | .panic w => .panic w
 
-/-! ### Call sites
-
-Each function returns the text of the location the call site opens / archives at, for the text it
-is *given* (builder argument or configured scalar). -/
-
-/-- `FileAppenderBuilder::build(path)`: `let path = expand_env_vars(path_cow)`, the file is opened there -/
-def fileBuild (alnum : Char → Bool) (env : Env) (path : Text) : Outcome Unit Text :=
-  expand alnum env path
-
-/-- `FileAppenderDeserializer::deserialize`: `appender.build(&config.path)` — the configured text
-reaches `build` as written -/
-def fileDeserialize (alnum : Char → Bool) (env : Env) (configured : Text) : Outcome Unit Text :=
-  fileBuild alnum env configured
-
-/-- `RollingFileAppenderBuilder::build(path, policy)`: `expand_env_vars(path.to_string_lossy())` -/
-def rollingBuild (alnum : Char → Bool) (env : Env) (path : Text) : Outcome Unit Text :=
-  expand alnum env path
-
-/-- `RollingFileAppenderDeserializer::deserialize`: `builder.build(config.path, policy)` -/
-def rollingDeserialize (alnum : Char → Bool) (env : Env) (configured : Text) : Outcome Unit Text :=
-  rollingBuild alnum env configured
-
-/-- `FixedWindowRollerBuilder::build(pattern, count)` keeps `pattern.to_owned()` -/
-def rollerBuild (pattern : Text) : Text := pattern
-
-/-- `FixedWindowRollerDeserializer::deserialize`: `builder.build(&config.pattern, config.count)` -/
-def rollerDeserialize (configured : Text) : Text := rollerBuild configured
+/-! ### What the call sites submit -/
 
 /-- the text `rotate()` expands for slot `i`: `pattern.replace("{}", &i.to_string())` — the index is
 substituted *before* the expansion -/
 def slotText (stored : Text) (i : Nat) : Text := replaceAll ['{', '}'] (decimal i) stored
 
-/-- `rotate()`: archive of slot `i` = `expand_env_vars(pattern.replace("{}", &i.to_string()))` -/
-def rollerSlot (alnum : Char → Bool) (env : Env) (stored : Text) (i : Nat) : Outcome Unit Text :=
-  expand alnum env (slotText stored i)
-
 /-- `expand_env_vars` in a process whose environment block is `os` -/
 def expandOs (alnum : Char → Bool) (os : OsEnv) (path : Text) : Outcome Unit Text :=
   expand alnum (unicodeView os) path
-
-inductive CallSite where
-  | fileBuilder | fileConfig | rollingBuilder | rollingConfig
-  | rollerBuilder (slot : Nat) | rollerConfig (slot : Nat)
-  deriving Repr, DecidableEq
-
-/-- the text a call site submits to the expansion, for the text it was given -/
-def CallSite.submitted : CallSite → Text → Text
-  | .rollerBuilder i, t => slotText t i
-  | .rollerConfig i, t => slotText t i
-  | _, t => t
-
-/-- where the call site puts its file -/
-def location (alnum : Char → Bool) (env : Env) : CallSite → Text → Outcome Unit Text
-  | .fileBuilder, t => fileBuild alnum env t
-  | .fileConfig, t => fileDeserialize alnum env t
-  | .rollingBuilder, t => rollingBuild alnum env t
-  | .rollingConfig, t => rollingDeserialize alnum env t
-  | .rollerBuilder i, t => rollerSlot alnum env (rollerBuild t) i
-  | .rollerConfig i, t => rollerSlot alnum env (rollerDeserialize t) i
-
-/-! ### The rolling appender over its life
-
-`build` stores `path: expand_env_vars(given).into()` in the appender; `get_writer` opens
-`&self.path` (first open in `build`, every reopen after a roll), and `append` hands
-`LogFile { path: &self.path, .. }` to the policy, whose roller gets `log.path()`. -/
-
-structure RollingAppender where
-  /-- the field `path` of the struct: computed once, in `build` -/
-  path : Text
-  deriving Repr, DecidableEq
-
-def rollingBuildState (alnum : Char → Bool) (env : Env) (given : Text) : Outcome Unit RollingAppender :=
-  match rollingBuild alnum env given with
-  | .ok p => .ok { path := p }
-  | .err e => .err e
-  | .panic w => .panic w
-
-/-- file-system uses of the appender's location -/
-inductive FsUse where
-  /-- `fs::create_dir_all(parent)` in `build` -/
-  | mkParent (of : Text)
-  /-- `OpenOptions::open(&self.path)` in `get_writer` -/
-  | openAt (p : Text)
-  /-- `roller.roll(log.path())`: the file the roller archives / deletes -/
-  | rollSource (p : Text)
-  deriving Repr, DecidableEq
-
-def FsUse.path : FsUse → Text
-  | .mkParent p => p
-  | .openAt p => p
-  | .rollSource p => p
-
-/-- appends after `build`; `rolls k = true` when the policy rolls at the k-th append.
-`writerOpen` = the `Option<LogWriter>` is `Some`. -/
-def appendTrace (a : RollingAppender) : Bool → List Bool → List FsUse
-  | _, [] => []
-  | writerOpen, roll :: rest =>
-    (if writerOpen then [] else [FsUse.openAt a.path]) ++
-    (if roll then [FsUse.rollSource a.path] else []) ++
-    appendTrace a (!roll) rest
-
-/-- every use of a location by a rolling appender built from `given`, over a history of appends -/
-def rollingTrace (alnum : Char → Bool) (env : Env) (given : Text) (rolls : List Bool) :
-    Outcome Unit (List FsUse) :=
-  match rollingBuildState alnum env given with
-  | .ok a => .ok (FsUse.mkParent a.path :: FsUse.openAt a.path :: appendTrace a true rolls)
-  | .err e => .err e
-  | .panic w => .panic w
 
 end Log4rs.EnvExpand
